@@ -10,9 +10,10 @@ Trace_ChopperCascade.tla (code -> spec).
    pulse rectangles, with intermediate propagations: a grid neutron is alive iff strictly inside a polygon
    of the clipping algorithm; polygons stay in the wavelength band and are regular; listing order and
    one-step/two-step evaluation do not matter.  Thorough adds random deep walks (-simulate: 5 distances,
-   <= 5 choppers, <= 3 windows).  Seven negative controls (clip orientation, absolute instead of relative
+   <= 5 choppers, <= 3 windows).  Ten negative controls (clip orientation, absolute instead of relative
    shear, windows applied to the first subframe only, unsorted choppers, tie-breaking interpolation,
-   extrapolating interpolation, absolute propagation) must be rejected.
+   extrapolating interpolation, absolute propagation, loop over the windows stopped at the first late one,
+   magnitude of the distance difference, __getitem__ always taking the last frame) must be rejected.
 2. spec -> code (M1): every Stride-th cascade of that model is replayed into FrameSequence.from_source_pulse /
    chop (whole list in shuffled order; one chopper per call; with a propagate_to in between) / propagate_to /
    __getitem__ in physical units.  Each observed frame becomes one NDJSON event: the reported vertices mapped
@@ -23,6 +24,29 @@ Trace_ChopperCascade.tla (code -> spec).
    also equal distances, 1..4 windows each, cutting / containing / missing / exactly touching, random programs
    of chop / propagate_to / __getitem__ calls), sampled grid neutrons (random + next to every reported vertex),
    judged by the neutron layer only.
+
+Hardening round (HARDENING.md; what was added and why it cannot alarm on correct code):
+ * model: the windows of a chopper are applied in the order they are listed (a reversed window pair is part of the
+   exhaustive chopper set; negative control "breaksorted" = the seeded change); PropagateTo also goes back towards
+   the source, not behind the last chopper (negative control "absdelta"; the driver comes back to a distance
+   strictly beyond the frame it started from - a float round trip d -> far -> d cannot restore the exact time ties
+   that Subframe.is_regular relies on at d, which is not something floating point can promise); __getitem__(distance) is the operator
+   GetAt on the frame sequence with invariant GetAtAgrees (MC_ChopperCascade_getat.cfg, negative control "getlast").
+ * spellings of the same cascade (make_chopper / Scale): window arrays as strided views, choppers selected with
+   Chopper.__getitem__ from a chopper with two more far-away windows, int64 metres where whole, final and asked
+   distances in cm / mm, a uniformly tiny (tick 31 ns) and a large (tick 1 ms) scale also for the exact vertex
+   comparison, pulses that start before time zero.
+ * call shapes: Frame.chop / Frame.propagate_to without a FrameSequence, chop([]), propagation beyond the next
+   chopper and back, propagate_to with a 1-d variable of distances (every slice is observed as a frame of its own),
+   the source sequence observed again after it was used.
+ * second use: every seventh task of a worker process is replayed at its end in the reverse order with the same
+   seed (keys get a suffix); the first call of a worker process is never a judged one.
+ * integer-typed operands in ANOTHER unit than the code works in (pulse bounds in int ms / us, propagate_to and
+   __getitem__ distances in int cm): converted in integer arithmetic - genuine defects, one key per call site
+   (mutants/C11/PROPOSED_FIX_int_*.diff).  A dtype error for integer-typed operands counts as unsupported.
+ * frames with non-finite / missing vertices become a violation with its own key, not a crash.
+ Not judged (observation only): after propagate_to with a distance in cm, __getitem__ with a distance in m raises
+ UnitError (the frame keeps the caller's unit) - a refusal, not a wrong answer.
 
 Numeric steps outside TLC (stated once): times are divided by the tick tau = D0*lam0*m_n/h (exact rational
 from the floats scipp exposes), wavelengths by lam0.  A reported vertex counts as a lattice point if it is
@@ -72,16 +96,38 @@ class Scale:
         self.tau_f = float(self.tau)
         self.lam0_f = float(lam0)
 
-    def time(self, ticks, unit='s'):
+    @classmethod
+    def with_tick(cls, tau: Fraction, lam0: Fraction):
+        """The scale whose time tick is exactly `tau` seconds (the distance unit follows; distances are then
+        rounded to the nearest float, a relative 1e-16 that no grid neutron can notice)."""
+        return cls(tau / (lam0 * Fraction(1, 10**10) * MN / H), lam0)
+
+    def time(self, ticks, unit='s', as_int=False):
         f = {'s': 1, 'ms': 1000, 'us': 10**6}[unit]
-        return sc.scalar(float(ticks * self.tau * f), unit=unit)
+        v = ticks * self.tau * f
+        if as_int:
+            if v.denominator != 1:
+                raise AssertionError('time is not a whole number in its unit')
+            return sc.scalar(int(v), unit=unit, dtype='int64')
+        return sc.scalar(float(v), unit=unit)
 
     def wavelength(self, w, unit='angstrom'):
         f = {'angstrom': Fraction(1), 'nm': Fraction(1, 10)}[unit]
         return sc.scalar(float(w * self.lam0 * f), unit=unit)
 
-    def distance(self, d):
-        return sc.scalar(float(d * self.d0), unit='m')
+    def distance(self, d, unit='m', as_int=False):
+        v = d * self.d0 * {'m': 1, 'cm': 100, 'mm': 1000}[unit]
+        if as_int:
+            if Fraction(v).denominator != 1:
+                raise AssertionError('distance is not a whole number in its unit')
+            return sc.scalar(int(v), unit=unit, dtype='int64')
+        return sc.scalar(float(v), unit=unit)
+
+    def whole(self, d, unit='m'):
+        return Fraction(d * self.d0 * {'m': 1, 'cm': 100, 'mm': 1000}[unit]).denominator == 1
+
+    def distances(self, ds):
+        return sc.array(dims=['distance'], values=[float(d * self.d0) for d in ds], unit='m')
 
 
 def listed(win, mode):
@@ -96,33 +142,74 @@ def listed(win, mode):
     return win
 
 
+FAR = 10**7     # ticks: a window that no neutron of any generated pulse can reach
+
+
 def make_chopper(cc, sc_, d, win, mode=0):
+    """mode picks how the same chopper is spelled: listing order of the windows (mode % 3), memory layout of the
+    window arrays ((mode // 3) % 3: contiguous | strided views of one interleaved array | selected with
+    Chopper.__getitem__ from a chopper that has two more windows far away), integer-typed distance in metres
+    where it is a whole number ((mode // 9) % 2)."""
     win = listed(win, mode)
-    return cc.Chopper(
-        distance=sc_.distance(d),
-        time_open=sc.array(dims=['cutout'], values=[float(o * sc_.tau) for o, _ in win], unit='s'),
-        time_close=sc.array(dims=['cutout'], values=[float(c * sc_.tau) for _, c in win], unit='s'),
-    )
+    layout = (mode // 3) % 3
+    dist = sc_.distance(d, as_int=(mode // 9) % 2 == 1 and sc_.whole(d))
+    if layout == 2:
+        win = [(-FAR - 5, -FAR)] + win + [(FAR, FAR + 5)]
+    opens, closes = [float(o * sc_.tau) for o, _ in win], [float(c * sc_.tau) for _, c in win]
+    if layout == 1:
+        edges = sc.array(dims=['cutout'], values=[x for oc in zip(opens, closes) for x in oc], unit='s')
+        return cc.Chopper(distance=dist, time_open=edges[::2], time_close=edges[1::2])
+    ch = cc.Chopper(distance=dist, time_open=sc.array(dims=['cutout'], values=opens, unit='s'),
+                    time_close=sc.array(dims=['cutout'], values=closes, unit='s'))
+    return ch[1:-1] if layout == 2 else ch
 
 
-def source(cc, sc_, pulse, i=0):
+def source(cc, sc_, pulse, i=0, int_time=None):
     t0, t1, w0, w1 = pulse
-    tu = ('s', 'ms', 'us')[i % 3]
+    tu = ('s', 'ms', 'us')[i % 3] if int_time is None else int_time
     wu = ('angstrom', 'nm')[i % 2]
     return cc.FrameSequence.from_source_pulse(
-        time_min=sc_.time(t0, tu), time_max=sc_.time(t1, tu),
+        time_min=sc_.time(t0, tu, int_time is not None), time_max=sc_.time(t1, tu, int_time is not None),
         wavelength_min=sc_.wavelength(w0, wu), wavelength_max=sc_.wavelength(w1, wu))
 
 
 # --------------------------------------------------------------------------- observation of a frame
+class Malformed(Exception):
+    """What the implementation returned is not a frame of finite polygons."""
+
+
 def _vertices(frame, sc_):
     """[(t_ticks ndarray, w_ticks ndarray)] per subframe, from the reported floats."""
     out = []
-    for sub in frame.subframes:
-        t = np.asarray(sub.time.to(unit='s', copy=False).values, dtype='float64').ravel() / sc_.tau_f
-        w = np.asarray(sub.wavelength.to(unit='angstrom', copy=False).values, dtype='float64').ravel() / sc_.lam0_f
-        out.append((t, w))
+    try:
+        for sub in frame.subframes:
+            t = np.asarray(sub.time.to(unit='s', copy=False).values, dtype='float64').ravel() / sc_.tau_f
+            w = np.asarray(sub.wavelength.to(unit='angstrom', copy=False).values, dtype='float64').ravel() / sc_.lam0_f
+            if len(t) == 0 or len(t) != len(w):
+                raise Malformed(f'subframe with {len(t)} times and {len(w)} wavelengths')
+            if not (np.all(np.isfinite(t)) and np.all(np.isfinite(w))):
+                raise Malformed('non-finite vertex')
+            if max(float(np.max(np.abs(t))), float(np.max(np.abs(w)))) > 1e12:
+                raise Malformed('vertex beyond 1e12 ticks')
+            out.append((t, w))
+    except Malformed:
+        raise
+    except Exception as e:  # noqa: BLE001
+        raise Malformed(f'{type(e).__name__}: {e}') from None
     return out
+
+
+def frame_at(cc, frame, j):
+    """The frame at the j-th distance of a frame that was propagated to a 1-d variable of distances
+    (HARDENING 7): real Frame / Subframe objects made of slices of the reported arrays."""
+    subs = []
+    for sub in frame.subframes:
+        extra = [dim for dim in sub.time.dims if dim not in sub.wavelength.dims]
+        if len(extra) != 1:
+            raise Malformed(f'time dims {sub.time.dims} vs wavelength dims {sub.wavelength.dims}')
+        subs.append(cc.Subframe(time=sub.time[extra[0], j], wavelength=sub.wavelength))
+    dist = frame.distance
+    return cc.Frame(distance=dist[dist.dims[0], j] if dist.ndim == 1 else dist, subframes=subs)
 
 
 def _fixed_polys(verts):
@@ -235,58 +322,150 @@ def transmitted(n, choppers):
 def _guard(ctx, shape, desc, fn):
     try:
         return fn()
+    except Malformed as e:
+        ctx.violation(f'{shape}: the reported frame has non-finite or malformed vertices', {**desc, 'problem': str(e)})
+        return None
     except Exception as e:  # noqa: BLE001
+        if desc.get('integer_typed_operands') and isinstance(e, (sc.DTypeError, TypeError)):
+            return None        # refusing integer-typed operands is not a wrong answer (weakest reading)
         ctx.violation(f'{shape}: raised {type(e).__name__} on an admissible cascade', {**desc, 'exc': repr(e)})
         return None
 
 
 # --------------------------------------------------------------------------- M1: enumerated cascades
-def replay_enumerated(ctx, rec, cc, case, idx, rng):
+class _Fixed:
+    """Probes of one root cause: whatever they report is filed under one fixed key per call site."""
+
+    def __init__(self, ctx, key):
+        self.ctx, self.key = ctx, key
+
+    def violation(self, key, detail=None):
+        self.ctx.violation(self.key, {**(detail or {}), 'what': key})
+
+    def case(self, *a, **k):
+        self.ctx.case(*a, **k)
+
+
+def record(ctx, rec, cc, frame, sc_, pulse, choppers, dist, L, pts, verts_wanted, shape, desc, fixed_key=None):
+    """One observed frame -> one event (or a violation if what was returned is not a frame of finite polygons)."""
+    try:
+        ev, bdetail, verts = observe(frame, sc_, pulse, choppers, dist, L, pts, verts_wanted)
+    except Malformed as e:
+        ctx.violation(f'{shape}: the reported frame has non-finite or malformed vertices', {**desc, 'problem': str(e)})
+        return None
+    inf = {'shape': shape, 'desc': {**desc, 'bounds_exception': bdetail,
+                                    'reported_vertices_ticks': [[t.tolist(), w.tolist()] for t, w in verts]}}
+    if fixed_key:
+        inf['fixed_key'] = fixed_key
+    rec.add(ev, inf)
+    return ev
+
+
+INT_TIME_KEY = ('from_source_pulse: integer-typed time bounds in another unit than seconds are converted in integer '
+                'arithmetic')
+INT_DIST_KEY = ('integer-typed distance in another unit than the frame distance is converted in integer arithmetic')
+
+
+def replay_enumerated(ctx, rec, cc, case, idx, rng, probe=None):
+    """probe = None: an ordinary replay.  'int_ms' / 'int_us': the pulse is handed over as integer-typed
+    milli- / microseconds (HARDENING 1 + 5; the tick is then exactly 1 ms).  'int_cm': the distances of
+    propagate_to / __getitem__ are integer-typed centimetres that are not whole metres."""
     pulse = case['pulse']
     chs = [(c['d'], [tuple(w) for w in c['win']]) for c in case['choppers']]
     L, dfin = case['L'], case['dfinal']
-    sc_ = Scale(*[(Fraction(1), Fraction(1)), (Fraction(1, 2), Fraction(2)), (Fraction(5, 2), Fraction(1, 2)),
-                  (Fraction(3), Fraction(1, 10))][idx % 4])
+    if probe in ('int_ms', 'int_us'):
+        sc_ = Scale.with_tick(Fraction(1, 1000), Fraction(1, 2))
+        ctx = _Fixed(ctx, INT_TIME_KEY)
+    elif probe == 'int_cm':
+        sc_ = Scale(Fraction(1, 2), Fraction(2))
+    else:
+        # four ordinary scales and (HARDENING 4) a uniformly tiny one (tick = 31 ns) and a large one (tick = 1 ms)
+        sc_ = Scale(*[(Fraction(1), Fraction(1)), (Fraction(1, 2), Fraction(2)), (Fraction(5, 2), Fraction(1, 2)),
+                      (Fraction(3), Fraction(1, 10)), (Fraction(1, 64), Fraction(1, 128)), (Fraction(4), Fraction(1))][idx % 6])
+    fixed = INT_TIME_KEY if probe in ('int_ms', 'int_us') else None
     pts = grid_neutrons(pulse)
     desc = {'pulse': pulse, 'choppers': case['choppers'], 'distance_unit_m': str(sc_.d0),
             'wavelength_unit_angstrom': str(sc_.lam0), 'expected_polygons_at_dfinal_scaled_by_L': case['expect']}
-    real = [make_chopper(cc, sc_, d, win, idx + j) for j, (d, win) in enumerate(chs)]
+    if probe:
+        desc['handed_over_as'] = {'int_ms': 'pulse times as int64 milliseconds', 'int_us': 'pulse times as int64 microseconds',
+                                  'int_cm': 'propagate_to / __getitem__ distances as int64 centimetres'}[probe]
+    desc['integer_typed_operands'] = bool(probe) or any(
+        ((idx + 5 * j) // 9) % 2 == 1 and sc_.whole(d) for j, (d, _) in enumerate(chs)) or any(
+        (idx + k) % 3 != 2 and (idx + k) % 2 == 1 and sc_.whole(([0] + [d for d, _ in chs])[k] + (1 if k < len(chs) else 3))
+        for k in range(len(chs) + 1))
+    real = _guard(ctx, 'Chopper()', desc, lambda: [make_chopper(cc, sc_, d, win, idx + 5 * j) for j, (d, win) in enumerate(chs)])
+    if real is None:
+        return
     n = len(chs)
 
-    def obs(frame, k, dist, shape, extra=None):
-        ev, bdetail, verts = observe(frame, sc_, pulse, chs[:k], dist, L, pts, True)
-        rec.add(ev, {'shape': shape, 'desc': {**desc, **(extra or {}), 'bounds_exception': bdetail,
-                                              'reported_vertices_ticks': [[t.tolist(), w.tolist()] for t, w in verts]}})
+    def obs(frame, k, dist, shape, extra=None, key=None):
+        record(ctx, rec, cc, frame, sc_, pulse, chs[:k], dist, L, pts, True, shape, {**desc, **(extra or {})},
+               fixed_key=key or fixed)
 
     # shape A: whole list at once, in shuffled order
     order = list(range(n))
     rng.shuffle(order)
-    fs0 = _guard(ctx, 'from_source_pulse', desc, lambda: source(cc, sc_, pulse, idx))
+    fs0 = _guard(ctx, 'from_source_pulse', desc,
+                 lambda: source(cc, sc_, pulse, idx, {'int_ms': 'ms', 'int_us': 'us'}.get(probe)))
     if fs0 is None:
         return
     fsA = _guard(ctx, 'chop(list)', desc, lambda: fs0.chop([real[i] for i in order]))
     if fsA is not None:
         if len(fsA) != n + 1:
             ctx.violation('chop(list): number of frames is not number of choppers + 1', desc)
+        elif probe == 'int_cm':
+            # odd model distances are x.5 m = whole centimetres
+            cx = _Fixed(ctx, 'propagate_to: ' + INT_DIST_KEY)
+            dodd = dfin + 1
+            fin = _guard(cx, 'propagate_to', desc, lambda: fsA.propagate_to(sc_.distance(dodd, 'cm', True)))
+            if fin is not None:
+                obs(fin[-1], n, dodd, 'chop(list);propagate_to', key='propagate_to: ' + INT_DIST_KEY)
+            stops = [0] + [d for d, _ in chs]
+            cx = _Fixed(ctx, '__getitem__(distance): ' + INT_DIST_KEY)
+            for k in range(n + 1):
+                dq = stops[k] + 1
+                fr = _guard(cx, '__getitem__(distance)', desc, lambda dq=dq: fsA[sc_.distance(dq, 'cm', True)])
+                if fr is not None:
+                    obs(fr, k, dq, '__getitem__(distance)', {'asked_distance': dq},
+                        key='__getitem__(distance): ' + INT_DIST_KEY)
+            ctx.case(nontrivial_id=('p', probe, idx))
+            return
         else:
             for k in range(n + 1):
                 obs(fsA[k], k, chs[k - 1][0] if k else 0, 'chop(list)', {'listed_order': order, 'frame': k})
-            fin = _guard(ctx, 'propagate_to', desc, lambda: fsA.propagate_to(sc_.distance(dfin)))
+            # the final distance in metres, or (HARDENING 5) in centimetres / millimetres
+            du = ('m', 'cm', 'm', 'mm')[idx % 4]
+            fin = _guard(ctx, 'propagate_to', desc, lambda: fsA.propagate_to(sc_.distance(dfin, du)))
             if fin is not None:
-                obs(fin[-1], n, dfin, 'chop(list);propagate_to')
+                obs(fin[-1], n, dfin, 'chop(list);propagate_to', {'distance_unit': du})
             # __getitem__ by distance: between the choppers and beyond the last
             stops = [0] + [d for d, _ in chs]
             for k in range(n + 1):
                 dq = stops[k] + 1 if k < n else stops[k] + 3
-                fr = _guard(ctx, '__getitem__(distance)', desc, lambda dq=dq: fsA[sc_.distance(dq)])
+                qu = ('m', 'm', 'cm')[(idx + k) % 3]
+                qi = qu == 'm' and (idx + k) % 2 == 1 and sc_.whole(dq)         # integer-typed whole metres
+                fr = _guard(ctx, '__getitem__(distance)', desc, lambda dq=dq, qu=qu, qi=qi: fsA[sc_.distance(dq, qu, qi)])
                 if fr is not None:
-                    obs(fr, k, dq, '__getitem__(distance)', {'asked_distance': dq})
-    # shape B: one chopper per call; shape C: a propagation in between
+                    obs(fr, k, dq, '__getitem__(distance)', {'asked_distance': dq, 'distance_unit': qu})
+            # HARDENING 7: propagated to a 1-d variable of distances (towards the detector bank) - every slice is a frame
+            if idx % 3 == 0:
+                ds = [stops[-1], stops[-1] + 1, dfin + 5]
+                many = _guard(ctx, 'propagate_to(1-d distances)', desc, lambda: fsA.propagate_to(sc_.distances(ds))[-1])
+                if many is not None:
+                    for j, dj in enumerate(ds):
+                        fj = _guard(ctx, 'propagate_to(1-d distances)', desc, lambda j=j: frame_at(cc, many, j))
+                        if fj is not None:
+                            obs(fj, n, dj, 'chop(list);propagate_to(1-d distances)', {'distances': ds, 'slice': j})
+    # shape B: one chopper per call; shape C: a propagation in between (beyond the chopper and back, or short of it)
     if n >= 1:
         def stepwise(with_prop):
             fs = fs0
             for k in range(n):
-                if with_prop and chs[k][0] - (chs[k - 1][0] if k else 0) >= 2:
+                prev = chs[k - 1][0] if k else 0
+                if with_prop and (idx + k) % 4 == 2:
+                    fs = fs.propagate_to(sc_.distance(chs[k][0] + 3))           # beyond the next chopper ...
+                    fs = fs.propagate_to(sc_.distance(prev + 1))                 # ... and back, just after the previous one
+                elif with_prop and chs[k][0] - prev >= 2:
                     fs = fs.propagate_to(sc_.distance(chs[k][0] - 1))
                 fs = fs.chop([real[k]])
             return fs.propagate_to(sc_.distance(dfin))
@@ -297,9 +476,28 @@ def replay_enumerated(ctx, rec, cc, case, idx, rng):
             fsC = _guard(ctx, 'propagate_to;chop', desc, lambda: stepwise(True))
             if fsC is not None:
                 obs(fsC[-1], n, dfin, 'propagate_to;chop;propagate_to')
+        else:
+            # shape D: Frame.chop / Frame.propagate_to directly, without a FrameSequence
+            def frames_only():
+                fr = fs0[0]
+                for k in range(n):
+                    fr = fr.chop(real[k])
+                return fr.propagate_to(sc_.distance(dfin))
+            frD = _guard(ctx, 'Frame.chop', desc, frames_only)
+            if frD is not None:
+                obs(frD, n, dfin, 'Frame.chop;Frame.propagate_to')
+    else:
+        fsE = _guard(ctx, 'chop([])', desc, lambda: fs0.chop([]))
+        if fsE is not None:
+            obs(fsE[-1], 0, 0, 'chop([])')
+    # HARDENING 6 / 9: the source sequence has been chopped and propagated several times - it still is the pulse
+    if not probe:
+        obs(fs0[0], 0, 0, 'source frame after it was used')
+        if len(fs0) != 1:
+            ctx.violation('the source FrameSequence grew while it was used', desc)
     alive = sum(transmitted(p, chs) for p in pts)
     touch = any(o in _corner_times(pulse, d) or c in _corner_times(pulse, d) for d, win in chs for o, c in win)
-    ctx.case(nontrivial_id=('e', idx) if 0 < alive < len(pts) or touch else None)
+    ctx.case(nontrivial_id=(('p', probe, idx) if probe else ('e', idx)) if 0 < alive < len(pts) or touch else None)
 
 
 def _corner_times(pulse, d):
@@ -309,7 +507,7 @@ def _corner_times(pulse, d):
 
 # --------------------------------------------------------------------------- M2: random physical cascades
 def random_cascade(rng):
-    t0 = rng.randrange(0, 200)
+    t0 = rng.randrange(-200, 200)                     # "all pulse rectangles": also emission before the reference time
     t1 = t0 + rng.choice([1, 2, 7, 40, 300, 1500, 3000])
     w0 = rng.choice([0, 0, 1, 5, 40, 200])
     w1 = w0 + rng.choice([1, 2, 9, 60, 400, 700])
@@ -355,42 +553,66 @@ def random_cascade(rng):
 
 
 def run_program(ctx, rng, cc, sc_, pulse, chs, dfin, desc):
-    """Random program of chop / propagate_to calls over the sorted cascade.  Returns the FrameSequence and
-    for each of its frames (distance, number of choppers applied)."""
+    """Random program of chop / propagate_to calls over the sorted cascade.  Returns the FrameSequence, for each
+    of its frames (distance, number of choppers applied), the calls, and whether the frame distances never
+    decrease (only then __getitem__(distance) has a meaning)."""
     fs = source(cc, sc_, pulse, rng.randrange(6))
     meta = [(0, 0)]
     k = 0
     n = len(chs)
     calls = []
+    monotone = True
     while k < n:
         take = rng.randrange(1, n - k + 1)
         # equal distances must stay in one call or in listed order: both are fine, the sort is stable
         group = list(range(k, k + take))
         rng.shuffle(group)
-        if rng.random() < 0.35 and chs[k][0] > meta[-1][0]:
+        r = rng.random()
+        if r < 0.35 and chs[k][0] > meta[-1][0]:
             dmid = rng.randrange(meta[-1][0], chs[k][0] + 1)
             if dmid > meta[-1][0] or rng.random() < 0.3:
                 fs = fs.propagate_to(sc_.distance(dmid))
                 meta.append((dmid, meta[-1][1]))
                 calls.append(['propagate_to', dmid])
-        fs = fs.chop([make_chopper(cc, sc_, *chs[i], mode=rng.randrange(3)) for i in group])
+        elif r < 0.5 and chs[k][0] > meta[-1][0]:
+            # beyond the next chopper(s) and back: "any sequence of calls".  Back to a distance strictly beyond the
+            # frame the excursion started from: exactly there the vertices on a clip line (or on the pulse edges at
+            # the source) are tied in time, and a float round trip d -> far -> d cannot restore exact ties, which
+            # Subframe.is_regular compares exactly - not something floats can promise, so it is not asked for.
+            last = meta[-1][0]
+            far = chs[k][0] + rng.randrange(1, 40)
+            back = rng.randrange(last + 1, chs[k][0] + 1)
+            for dd in (far, back):
+                fs = fs.propagate_to(sc_.distance(dd))
+                meta.append((dd, meta[-1][1]))
+                calls.append(['propagate_to', dd])
+            monotone = False
+        fs = fs.chop([make_chopper(cc, sc_, *chs[i], mode=rng.randrange(18)) for i in group])
         calls.append(['chop', group])
         for j in range(k, k + take):
             meta.append((chs[j][0], j + 1))
         k += take
-    return fs, meta, calls
+    return fs, meta, calls, monotone
+
+
+SCALES_D = [Fraction(1, 4), Fraction(1, 2), Fraction(1)]
+SCALES_W = [Fraction(1, 64), Fraction(1, 32), Fraction(1, 100)]
 
 
 def replay_random(ctx, rec, cc, t, rng):
     pulse, chs, dfin, touching = random_cascade(rng)
-    sc_ = Scale(rng.choice([Fraction(1, 4), Fraction(1, 2), Fraction(1)]),
-                rng.choice([Fraction(1, 64), Fraction(1, 32), Fraction(1, 100)]))
+    if t % 4 == 3:
+        # HARDENING 4: the same kind of cascade on a uniformly tiny (tick = 30 ns) / large (tick = 1 ms) scale
+        sc_ = Scale(*rng.choice([(Fraction(1, 64), Fraction(1, 128)), (Fraction(4), Fraction(1))]))
+    else:
+        sc_ = Scale(rng.choice(SCALES_D), rng.choice(SCALES_W))
     desc = {'pulse': pulse, 'choppers': [{'d': d, 'win': w} for d, w in chs], 'dfinal': dfin,
             'distance_unit_m': str(sc_.d0), 'wavelength_unit_angstrom': str(sc_.lam0)}
+    desc['integer_typed_operands'] = any(sc_.whole(d) for d, _ in chs)      # make_chopper may then use int64 metres
     out = _guard(ctx, 'random program of chop/propagate_to', desc, lambda: run_program(ctx, rng, cc, sc_, pulse, chs, dfin, desc))
     if out is None:
         return
-    fs, meta, calls = out
+    fs, meta, calls, monotone = out
     desc['calls'] = calls
     if len(fs) != len(meta):
         ctx.violation('random program: unexpected number of frames', desc)
@@ -413,7 +635,8 @@ def replay_random(ctx, rec, cc, t, rng):
         return lst[::len(lst) // 400 + 1]
 
     observed = []
-    last = _guard(ctx, 'propagate_to', desc, lambda: fs.propagate_to(sc_.distance(dfin))[-1])
+    du = rng.choice(['m', 'm', 'cm', 'mm'])
+    last = _guard(ctx, 'propagate_to', desc, lambda: fs.propagate_to(sc_.distance(dfin, du))[-1])
     if last is not None:
         observed.append((last, len(chs), dfin, 'program;propagate_to'))
     # a stored frame (not one between two choppers at the same distance: which of the two the code applies first
@@ -422,19 +645,32 @@ def replay_random(ctx, rec, cc, t, rng):
     j = rng.choice(unamb)
     observed.append((fs[j], meta[j][1], meta[j][0], 'program;frames[k]'))
     # __getitem__ by distance (the frame in force at that distance)
-    dq = 2 * rng.randrange(0, dfin // 2 + 2) + 1      # odd: never exactly at a chopper (even distances)
-    kq = max(i for i, (d, _) in enumerate(meta) if d <= dq)
-    fr = _guard(ctx, '__getitem__(distance)', desc, lambda: fs[sc_.distance(dq)])
-    if fr is not None:
-        observed.append((fr, meta[kq][1], dq, 'program;__getitem__(distance)'))
+    if monotone:
+        dq = 2 * rng.randrange(0, dfin // 2 + 2) + 1      # odd: never exactly at a chopper (even distances)
+        kq = max(i for i, (d, _) in enumerate(meta) if d <= dq)
+        fr = _guard(ctx, '__getitem__(distance)', desc, lambda: fs[sc_.distance(dq, rng.choice(['m', 'cm']))])
+        if fr is not None:
+            observed.append((fr, meta[kq][1], dq, 'program;__getitem__(distance)'))
+    # the last frame propagated to a 1-d variable of distances: one slice
+    if t % 5 == 1:
+        ds = sorted({meta[-1][0], dfin + 1, dfin + rng.randrange(2, 60)})
+        many = _guard(ctx, 'propagate_to(1-d distances)', desc, lambda: fs.propagate_to(sc_.distances(ds))[-1])
+        if many is not None:
+            jj = rng.randrange(len(ds))
+            fj = _guard(ctx, 'propagate_to(1-d distances)', desc, lambda: frame_at(cc, many, jj))
+            if fj is not None:
+                observed.append((fj, len(chs), ds[jj], 'program;propagate_to(1-d distances)'))
     nt = False
     for frame, k, dist, shape in observed:
-        pts = pts_for(frame, dist)
-        ev, bdetail, verts = observe(frame, sc_, pulse, chs[:k], dist, 1, pts, False)
-        rec.add(ev, {'shape': shape, 'desc': {**desc, 'observed_distance': dist, 'bounds_exception': bdetail,
-                                              'reported_vertices_ticks': [[t_.tolist(), w_.tolist()] for t_, w_ in verts]}})
-        ins = sum(1 for p in ev['pts'] if p[2])
-        nt |= 0 < ins < len(pts)
+        try:
+            pts = pts_for(frame, dist)
+        except Malformed as e:
+            ctx.violation(f'{shape}: the reported frame has non-finite or malformed vertices', {**desc, 'problem': str(e)})
+            continue
+        ev = record(ctx, rec, cc, frame, sc_, pulse, chs[:k], dist, 1, pts, False, shape, {**desc, 'observed_distance': dist})
+        if ev is not None:
+            ins = sum(1 for p in ev['pts'] if p[2])
+            nt |= 0 < ins < len(pts)
     ctx.case(nontrivial_id=('r', t) if nt or touching else None)
 
 
@@ -450,17 +686,35 @@ def _count_simulated(ctx, res):
 
 
 def worker(tasks):
-    """Replay a chunk of tasks in this process."""
+    """Replay a chunk of tasks in this process; at the end a sample of them once more, in the reverse order
+    (HARDENING 6: the same seeds, so a history-free implementation gives the same frames again)."""
     import random
 
     from scippneutron.tof import chopper_cascade as cc
 
     col = Collector()
-    for kind, case, i, seed in tasks:
+
+    def one(kind, case, i, seed):
         if kind == 'enum':
             replay_enumerated(col, col, cc, case, i, random.Random(seed))
+        elif kind == 'probe':
+            replay_enumerated(col, col, cc, case[1], i, random.Random(seed), probe=case[0])
         else:
             replay_random(col, col, cc, i, random.Random(seed))
+
+    if tasks:
+        # the first use of the library in this process is not one that is judged first (nothing of it is kept)
+        keep, col = col, Collector()
+        one(*tasks[-1])
+        col = keep
+    for task in tasks:
+        one(*task)
+    n1, c1 = len(col.events), len(col.cases)
+    for task in reversed(tasks[2::7]):
+        one(*task)
+    del col.cases[c1:]
+    for inf in col.info[n1:]:
+        inf['again'] = True
     return col.export()
 
 
@@ -479,20 +733,25 @@ def run(ctx):
                       coverage=True)
         require_ok(ctx, res, 'ChopperCascade model')
         require_actions(res, ['ChopAny', 'PropagateTo'])
+        # __getitem__(distance) on the frame sequence of every cascade of the smaller chopper set
+        res = ctx.tlc('chopper/MC_ChopperCascade.tla', 'MC_ChopperCascade_getat.cfg', workers=4, timeout=900)
+        require_ok(ctx, res, 'ChopperCascade model (__getitem__)')
         if th:
             res = ctx.tlc('chopper/MC_ChopperCascade.tla', 'MC_ChopperCascade_thorough.cfg', workers=W, timeout=2400)
             require_ok(ctx, res, 'ChopperCascade model (thorough bounds)')
-        for bug in ('orientation', 'absdist', 'firstonly', 'nosort', 'tiebreak', 'interpsign', 'propabs'):
-            ctx.tlc('chopper/MC_ChopperCascade.tla', f'Neg_ChopperCascade_{bug}.cfg', workers=4, expect_error=True,
-                    timeout=600)
         if th:
             sim = ctx.tlc('chopper/MC_ChopperCascade.tla', 'MC_ChopperCascade_sim.cfg', workers=W, timeout=900,
                           simulate='num=2000', depth=9, extra=['-seed', str(ctx.seed + 11)])
             require_ok(ctx, sim, 'ChopperCascade deep random walks')
             _count_simulated(ctx, sim)
 
-    with Background(design):
-        time.sleep(0.3)   # distinct scratch directory names for the two TLC processes
+    def controls():
+        for bug in ('orientation', 'absdist', 'firstonly', 'nosort', 'tiebreak', 'interpsign', 'propabs', 'breaksorted',
+                    'absdelta', 'getlast'):
+            ctx.tlc('chopper/MC_ChopperCascade.tla', f'Neg_ChopperCascade_{bug}.cfg', workers=2, expect_error=True,
+                    timeout=600)
+
+    with Background(design), Background(controls):
         # ------------------------------------------------------------------ 2. spec -> code
         out = str(ctx.tmp / 'c11-cases.ndjson')
         em = ctx.tlc('chopper/MC_Emit_ChopperCascade.tla',
@@ -506,11 +765,17 @@ def run(ctx):
         ctx.extra['emitted_cascades'] = len(cases)
         rng = ctx.rng
         tasks = [('enum', case, i, rng.getrandbits(48)) for i, case in enumerate(cases)]
+        # integer-typed operands in another unit than the code works in (HARDENING 1 + 5), on a few enumerated cascades
+        some = [c for c in cases if c['choppers']][:: max(1, len(cases) // 8)][:8]
+        for i, case in enumerate(some):
+            tasks.append(('probe', (('int_ms', 'int_cm', 'int_us', 'int_cm')[i % 4], case), i, rng.getrandbits(48)))
         n_enum = len(tasks)
         # -------------------------------------------------------------- 3. code -> spec, random physical cascades
         tasks += [('random', None, t, rng.getrandbits(48)) for t in range(2500 if th else 400)]
+        t_rep = time.time()
         results = run_chunks(worker, chunked(tasks[:n_enum], 60) + chunked(tasks[n_enum:], 50), PROCS)
         events, info, _ = merge_results(ctx, results)
+        ctx.extra['replay_wall_s'] = round(time.time() - t_rep, 1)
         n_m1 = sum(len(r['events']) for r in results[:len(chunked(tasks[:n_enum], 60))])
     ctx.extra['events_enumerated'] = n_m1
     ctx.extra['events_random'] = len(events) - n_m1
@@ -529,14 +794,18 @@ def run(ctx):
         ev, inf = events[line - 1], info[line - 1]
         if clause.startswith('driver_error') or clause == 'unknown_event':
             raise MachineryError(f'bad event {ev}: {clause}')
-        if clause in ('subframe_not_regular', 'bounds_unavailable_or_wrong', 'polygon_leaves_wavelength_band'):
+        if inf.get('fixed_key'):
+            key = inf['fixed_key']                   # probes of one root cause: one key per call site
+        elif clause in ('subframe_not_regular', 'bounds_unavailable_or_wrong', 'polygon_leaves_wavelength_band'):
             key = f'{clause} (frame produced by FrameSequence.chop)'
         else:
             key = f'{inf["shape"]}: {clause}'
-        ctx.violation(key, {'event': ev, 'shape': inf['shape'], **inf['desc']})
+        if inf.get('again') and not inf.get('fixed_key'):
+            key += ' [replayed later in the same process, in another order]'
+        ctx.violation(key, {'event': ev, 'shape': inf['shape'], 'clause': clause, **inf['desc']})
     # ------------------------------------------------------------------ 5. the judge is sensitive
     rejected = {line for _, line, _t, _c in tr.tagged('REJECT')}
-    good = [e for i, e in enumerate(events[:n_m1]) if (i + 1) not in rejected and e['pts']
+    good = [e for i, e in enumerate(events) if (i + 1) not in rejected and e['pts']
             and any(len({tuple(v) for v in p}) >= 3 for p in e['polys'])]
     if good:
         import copy
@@ -570,7 +839,8 @@ META = {
             'misses and exactly touches the frames (plus random deep walks up to 5 choppers), that a grid neutron is '
             'transmitted iff it is strictly inside a polygon of the shear-and-clip procedure, that the polygons stay in '
             'the wavelength band and are regular, and that listing order and one-step/two-step evaluation do not '
-            'matter; seven wrong variants are rejected.  The real FrameSequence API is driven with the enumerated '
+            'matter, also for windows listed in decreasing order, propagation back towards the source and __getitem__ by '
+            'distance; ten wrong variants are rejected.  The real FrameSequence API is driven with the enumerated '
             'cascades (several call shapes, physical units) and with seeded random physical cascades of 0..5 choppers '
             'and random programs; for each observed frame TLC decides the membership of grid neutrons (neutron layer), '
             'the vertices as convex regions on the model lattice (polygon layer), band, regularity and bounds.',
